@@ -32,7 +32,8 @@ def shards(tier, seed):
         for a in range(16):
             out.append({'name': 'ph%d' % a, 'what': 'ph-all',
                         'lo': a * 16, 'hi': a * 16 + 16})
-    return common.with_configs(out, common.ALL_CONFIGS, take=6)
+    return common.with_configs(out, common.ALL_CONFIGS,
+                               take=6 if tier == 'quick' else 5)
 
 
 def _contents(rnd, n):
